@@ -1,4 +1,5 @@
 import Holpy.C11.Defs4
+import Holpy.C11.Props
 /-
 C11 ∘ C01 — proofs over `logic_base` extended by any sequence of ACCEPTED `def` items.
 
@@ -143,5 +144,46 @@ example (steps : List StepAx) (res : List Thm)
     (∀ th ∈ res, GoodIn (C01.StdDefs (defsOf demoItems)) th) ∧ C01.falseThm ∉ res :=
   let r := check_proof_sound_over_accepted_defs demoItems (by decide) (by decide) (by decide) steps res h
   ⟨r.1, r.2.2⟩
+
+/-! ### recursive functions: out of reach of the finite-model semantics -/
+
+def natT : Ty := .con "nat" []
+def fT : Ty := Ty.fn natT Ty.bool
+/-- `∀p. p ⟶ ∀p. p`, i.e. truth, from the logical constants only -/
+def trueT : Term := Term.mkImplies falseT falseT
+
+/-- `f 0 ⟷ True` -/
+def primrecRule0 : Term := eqAt Ty.bool (.comb (.const "f" fT) (.const "zero" natT)) trueT
+/-- `f (Suc n) ⟷ False` -/
+def primrecRule1 : Term :=
+  eqAt Ty.bool (.comb (.const "f" fT) (.comb (.const "Suc" (Ty.fn natT natT)) (.var "n" natT))) falseT
+
+/-- WHY THERE IS NO `def_ind_primrec_conservative`.  The primitive recursive definition
+`fun f :: nat ⇒ bool, f 0 = True, f (Suc n) = False` (one equation per constructor, distinct variable
+patterns, no recursive call at all) has NO interpretation in the finite standard model whose type
+`nat` has one element: there `0` and `Suc n` denote the same element.  A primitive recursive
+definition is conservative only over models in which the constructors are free (`0 ≠ Suc n`, `Suc`
+injective), and no FINITE carrier of `nat` (or of lists) has free constructors; so the Nat-coded
+finite models of this framework cannot carry a conservativity theorem for `def.ind` items over
+`nat` / `list`.  What the check does instead: the decidable predicate `primRecOK` (harness) is
+evaluated on every `def.ind` item of the library and of the generated stream. -/
+theorem primrec_not_conservative_in_finite_models :
+    ¬ ConservativeAt "f" fT [primrecRule0, primrecRule1] := by
+  intro h
+  obtain ⟨c, hc, hs⟩ := h oneModel ρ0 ρ0_adm
+  have hc2 : c < 2 := by
+    have : oneModel.size fT = 2 := by decide
+    omega
+  have hadm := ρ0_adm.update 2 "f" fT c hc
+  have h0 := (sat_nil_iff _ _ _).1 (hs primrecRule0 (by simp)) _ hadm (fun _ _ => rfl)
+  have h1 := (sat_nil_iff _ _ _).1 (hs primrecRule1 (by simp)) _ hadm (fun _ _ => rfl)
+  obtain rfl | rfl : c = 0 ∨ c = 1 := by omega
+  · revert h0; decide
+  · revert h1; decide
+
+/-- with a two-element `nat` on which `Suc` is the identity the same happens; with free
+constructors (impossible in a finite model) it would not: in `oneModel` each rule ALONE is fine -/
+example : ∃ c, c < oneModel.size fT ∧ holds oneModel (ρ0.update 2 "f" fT c) primrecRule0 :=
+  ⟨1, by decide, by unfold holds; decide⟩
 
 end Holpy.C11
